@@ -114,6 +114,10 @@ def check_output(stdout, want, has_usec, layout=None):
         dup = sorted(set(i for i in got_idx if got_idx.count(i) > 1))
         return "records printed %s; expected (stable time order) %s; missing=%s repeated=%s" % (got_idx, want_idx, missing[:10], dup[:10])
     for ln, r in zip(lines, want):
+        if layout is not None:
+            exp = expected_line(layout, r)
+            if exp is not None and ln != exp:
+                return "line of record %d is not the record's own field values: printed %r, expected %r" % (r["idx"], ln[:240], exp[:240])
         for f, v in r["markers"].items():
             if b"'" + v + b"'" not in ln:
                 return "line of record %d lacks its own %s value %r: %r" % (r["idx"], f, v, ln[:200])
@@ -132,6 +136,45 @@ def nul_check(stdout):
     if n0 == stdout.count(b"\n") and stdout.count(b"\n\x00") == n0:
         return [("nul_byte_after_each_record", "%d records printed, each followed by one 0x00 byte after its newline" % n0)]
     return [("stray_nul_bytes", "%d NUL bytes in %d lines, not in the one-after-each-newline shape" % (n0, stdout.count(b"\n")))]
+
+
+SIMPLE = {   # layouts whose whole line is determined by the marker strings and the time value (independent model)
+    "lastlog": lambda r: b"ll_time %d ll_line '%s' ll_host '%s'" % (r["sec"], r["markers"]["ll_line"], r["markers"]["ll_host"]),
+    "utmp": lambda r: b"ut_line '%s' ut_name '%s' ut_host '%s' ut_time %d" % (r["markers"]["ut_line"], r["markers"]["ut_name"], r["markers"]["ut_host"], r["sec"]),
+}
+_TEMPLATE_LINE = {}
+
+
+def template_line(layout):
+    """how the pristine template record of a richer layout (utmpx, acct) is printed, alone in a file: the other fields of
+    every generated record equal the template's, so its line is the template's line with markers and time replaced.
+    (Detects context-dependent rendering: stale buffer bytes, neighbours' values, ...; a consistent mis-rendering of a
+    non-marker field is outside this model.)"""
+    if layout in _TEMPLATE_LINE:
+        return _TEMPLATE_LINE[layout]
+    fname = layouts.LAYOUTS[layout][6]
+    scn = core.Scenario([core.FileSpec(fname, layouts.template(layout), 1600000000)], ["--color", "never", "--tz-offset", "+00:00", fname], None, "UTC")
+    res = core.execute(scn, core.Plan(seed=1, policy="lowest"))
+    ln = res.stdout.split(b"\n")[0].lstrip(b"\x00")
+    _TEMPLATE_LINE[layout] = ln if ln.startswith((b"ut_", b"ac_")) else None
+    return _TEMPLATE_LINE[layout]
+
+
+def expected_line(layout, r):
+    fam = layout.split("_", 2)[2]
+    if fam in SIMPLE:
+        return SIMPLE[fam](r)
+    t = template_line(layout)
+    if t is None:
+        return None
+    out = t
+    for f, v in r["markers"].items():
+        out = re.sub(re.escape(f.encode()) + rb" '[^']*'", f.encode() + b" '" + v + b"'", out, count=1)
+    if fam.startswith("utmpx"):
+        out = re.sub(rb"(ut_tv|ut_xtime) \S+", lambda m: m.group(1) + b" %d.%d" % (r["sec"], r["usec"]), out, count=1)
+    else:
+        out = re.sub(rb"ac_btime \d+", b"ac_btime %d" % r["sec"], out, count=1)
+    return out
 
 
 KNOWN = {}
